@@ -5,8 +5,8 @@ SEED=${2:-1}
 cd "$(dirname "$0")/.."
 for id in C01 C02 C03 C04 C05 C06 C07 C08 C09 C10 C11 C12 C13 C14 C15 C16 C17 C18 C19 C20; do
   start=$(date +%s)
-  VERIF_SEED=$SEED bin/check $id $TIER > /tmp/runall-$id.log 2>&1
+  VERIF_SEED=$SEED bin/check $id $TIER > /tmp/runall-$TIER-$SEED-$id.log 2>&1
   rc=$?
   end=$(date +%s)
-  echo "$id rc=$rc $((end-start))s $(grep -c '^VIOLATION' /tmp/runall-$id.log) violations $(grep -c '^KNOWN-FINDING' /tmp/runall-$id.log) known :: $(tail -1 /tmp/runall-$id.log | cut -c1-160)"
+  echo "$id rc=$rc $((end-start))s $(grep -c '^VIOLATION' /tmp/runall-$TIER-$SEED-$id.log) violations $(grep -c '^KNOWN-FINDING' /tmp/runall-$TIER-$SEED-$id.log) known :: $(tail -1 /tmp/runall-$TIER-$SEED-$id.log | cut -c1-160)"
 done
